@@ -66,6 +66,11 @@ def rnd_frame(rng, big=False):
 
 def events(ctx):
     rng = ctx.rng
+    from ..core import source_constants
+    for c in source_constants():
+        for trunc in (0, 1):
+            yield record("uslp.hdr.unpack", {"octets": list(c) + [0xC1, 0x23, 0x45, 0x66, 0, 20, 0x03, 1, 2, 3], "trunc": trunc})
+            yield record("uslp.hdr.unpack", {"octets": list(c) + [0xC1, 0x23, 0x45, 0x66, 0, 20, 0x03, 1, 2, 3][len(c):] + [7] * 4, "trunc": trunc})
     for _ in range(ctx.q(20000, 1000000)):
         yield record("uslp.hdr.rt", {"h": rnd_hdr(rng, bad=rng.random() < 0.1), "sfx": [rng.randrange(256)] * rng.choice([0, 0, 5])})
     from ..ops_uslp import mk_frame, _ftype
